@@ -96,7 +96,9 @@ class PolarizedRays(RealRays):
         k1 = np.array([self.L, self.M, self.N]).T
 
         # find s-component
-        s = np.cross(k0, k1)
+        # k0 x (k1 - k0) equals k0 x k1 but keeps full relative precision when
+        # the ray is (almost) undeviated
+        s = np.cross(k0, k1 - k0)
         mag = np.linalg.norm(s, axis=1)
 
         # handle case when mag = 0 (i.e., k0 parallel to k1)
